@@ -519,6 +519,12 @@ func reclaimCheck(policy func(int, []int) int) func(r *vrt.Result) string {
 		quiet := -1
 		for _, e := range r.Events {
 			switch e.Kind {
+			case "busy-size":
+				// an operation every 4ms, cooldown 10ms: whatever was committed more than two cooldowns
+				// (5 operations) ago must be gone, scheduling latency included
+				if e.Int(1) > 7 {
+					return fmt.Sprintf("reclaim-stalled: %d values retained after %d put/get/commit rounds 4ms apart with a 10ms cooldown", e.Int(1), e.Int(0))
+				}
 			case "quiet":
 				quiet = e.Int(0)
 			case "reclaimed":
